@@ -72,6 +72,12 @@ func c14Requests(sec *ref.PMTSection, pmtPID int, full bool) [][]int {
 		[]int{0, pmtPID},
 		[]int{0, c14Absent[0]},
 		[]int{pmtPID, c14Absent[1], 0},
+		// the tolerated PIDs named more than once, next to an absent one and alone
+		[]int{0, 0, c14Absent[0]},
+		[]int{pmtPID, c14Absent[2], pmtPID},
+		[]int{0, pmtPID, 0, pmtPID, c14Absent[1]},
+		[]int{0, 0},
+		[]int{pmtPID, pmtPID, 0},
 	)
 	if n > 0 {
 		out = append(out,
@@ -824,7 +830,7 @@ func init() {
 		Scenarios: []engine.ScenarioRunner{
 			&engine.Tree{
 				Name: "filter",
-				Rule: "choice tree over the logical section of C06 (version, current_next, program number/PCR PID, 0..2 program descriptors, 0..4 streams with type, distinct PID, 0..2 descriptors of a 9-entry menu, reserved bits ones/zeros) and the carrier (pointer_field {0,1,5,100} with filler, 0..3 trailing stuffing bytes, 3 PMT PIDs, last packet padded/shortened, second packet full/1/2/100 bytes, priority+PCR adaptation fields); EVERY execution: RemoveElementaryStreams for every subset of the stream PIDs (original and reversed order, plus an absent PID, duplicates, two consecutive calls, lists as long as / longer than the stream list made of absent PIDs, one stream plus absent PIDs, one stream repeated) then ElementaryStreams/Pids/PIDExists; and FilterPMTPacketsToPids for every first-packet payload size 1..184 x every request list (every subset of the stream PIDs in original and reversed order, subsets plus one absent PID, only absent PIDs, duplicated PIDs, PAT PID, PMT PID, mixtures, the empty list): returned packets (headers, payload = pointer bytes + reference-filtered section + 0xFF), error contract, inputs unchanged; non-trivial = executions with at least one non-default choice",
+				Rule: "choice tree over the logical section of C06 (version, current_next, program number/PCR PID, 0..2 program descriptors, 0..4 streams with type, distinct PID, 0..2 descriptors of a 9-entry menu, reserved bits ones/zeros) and the carrier (pointer_field {0,1,5,100} with filler, 0..3 trailing stuffing bytes, 3 PMT PIDs, last packet padded/shortened, second packet full/1/2/100 bytes, priority+PCR adaptation fields); EVERY execution: RemoveElementaryStreams for every subset of the stream PIDs (original and reversed order, plus an absent PID, duplicates, two consecutive calls, lists as long as / longer than the stream list made of absent PIDs, one stream plus absent PIDs, one stream repeated) then ElementaryStreams/Pids/PIDExists; and FilterPMTPacketsToPids for every first-packet payload size 1..184 x every request list (every subset of the stream PIDs in original and reversed order, subsets plus one absent PID, only absent PIDs, duplicated PIDs, PAT PID, PMT PID - also repeated, alone and next to an absent PID -, mixtures, the empty list): returned packets (headers, payload = pointer bytes + reference-filtered section + 0xFF), error contract, inputs unchanged; non-trivial = executions with at least one non-default choice",
 				Bound: func(r *engine.Run) int {
 					if r.Thorough() {
 						return 4
